@@ -185,3 +185,30 @@ package core
 //@   call DeleteBundle#1 assert [the-listed-id] $bundleID == bundle.ID && $repo == repoName
 //@   call DeleteBundle#1 assert [labelled-kept] (settings.retainTags || settings.retainSemverTags) ==> !has(labelsIndex, bundle.ID)
 //@   call DeleteLabel#1 assert [dangling-only] !has(bundlesIndex, l.BundleID) && $name == l.Name && $repo == repoName
+
+// ---- bundle diff (C05): exactly the paths added, removed or changed, each once ---------------------
+// soundness at every append, completeness as a per-iteration step (prev = start of the iteration)
+//@ func diffBundles
+//@   requires bundleExisting != nil && bundleAdditional != nil
+//@   call append#1 assert [dif-justified] ok && bundleEntryAdditional.Hash != bundleEntryExisting.Hash
+//@   call append#1 assert [dif-entry] $1[0].Type == DiffEntryTypeDif && $1[0].Name == nameWithPath && $1[0].Existing == bundleEntryExisting && $1[0].Additional == bundleEntryAdditional
+//@   call append#2 assert [del-justified] !ok
+//@   call append#2 assert [del-entry] $1[0].Type == DiffEntryTypeDel && $1[0].Name == nameWithPath && $1[0].Existing == bundleEntryExisting
+//@   call append#3 assert [add-justified] !ok#2
+//@   call append#3 assert [add-entry] $1[0].Type == DiffEntryTypeAdd && $1[0].Name == nameWithPath#2 && $1[0].Additional == bundleEntryAdditional#2
+//@   loop 3 step [changed-once] ok && bundleEntryAdditional.Hash != bundleEntryExisting.Hash ==> len(diffEntries) == prev(len(diffEntries)) + 1
+//@   loop 3 step [removed-once] !ok ==> len(diffEntries) == prev(len(diffEntries)) + 1
+//@   loop 3 step [same-skipped] ok && bundleEntryAdditional.Hash == bundleEntryExisting.Hash ==> len(diffEntries) == prev(len(diffEntries))
+//@   loop 4 step [added-once] !ok#2 ==> len(diffEntries) == prev(len(diffEntries)) + 1
+//@   loop 4 step [present-skipped] ok#2 ==> len(diffEntries) == prev(len(diffEntries))
+
+// update = publish both metadata sets, then ALWAYS run the data/metadata update step
+//@ func Update
+//@   call implPublishMetadata#1 assert [src] $bundle == bundleSrc
+//@   call implPublishMetadata#2 assert [dest] $bundle == bundleDest
+//@   call unpackDataFiles#1 assert [update-step] $1 == bundleSrc && $2 == bundleDest
+//@   call unpackDataFiles#1 bind ud = $ret0
+//@   call implPublishMetadata#1 bind e1 = $ret0
+//@   call implPublishMetadata#2 bind e2 = $ret0
+//@   ensures [always-updates] err == nil ==> ud_set && ud == nil
+//@   ensures [propagate] (e1_set && e1 != nil) || (e2_set && e2 != nil) || (ud_set && ud != nil) ==> err != nil
